@@ -350,7 +350,8 @@ static void classify(struct runctx *rc, struct opres *r)
     /* a few message codes select the sub-stage in the model */
     const char *cs = hook_code == JERR_CONVERSION_NOTIMPL ? "CONV" : hook_code == JERR_BUFFER_SIZE ? "BUFSZ" :
                      hook_code == JERR_NO_IMAGE ? "NOIMG" : hook_code == JERR_NO_HUFF_TABLE ? "NOHUFF" :
-                     hook_code == JERR_NO_QUANT_TABLE ? "NOQUANT" : hook_code == JERR_BAD_STATE ? "BADSTATE" : NULL;
+                     hook_code == JERR_NO_QUANT_TABLE ? "NOQUANT" : hook_code == JERR_BAD_STATE ? "BADSTATE" :
+                     hook_code == JERR_BAD_HUFF_TABLE ? "BADHUFF" : NULL;
     char num[16];
     snprintf(num, sizeof(num), "%d", hook_code);
     snprintf(r->stage, sizeof(r->stage), "E%c%d.%s.%d%d.%d", hook_isd ? 'd' : 'c', hook_gs, cs ? cs : num, hook_soi, hook_sof, hook_um);
